@@ -981,11 +981,11 @@ func c12Job(r *mon.R, j c12Spec, idx int) {
 	minT := j.n/2 + 1
 	setupFail := func(what string, err error) {
 		r.NoteAdd("setup_failed", 1)
-		if j.t >= minT {
-			r.Inconclusive(fmt.Sprintf("%s: %s: %v", e.id, what, err))
-		} else {
+		if j.t < minT {
 			r.NoteAdd("setup_failed_below_recommended_t", 1)
 		}
+		// never silent: a session that could not be set up was not observed (on the unchanged tree no setup fails)
+		r.Inconclusive(fmt.Sprintf("%s: %s: %v", e.id, what, err))
 	}
 	var long, prev []dss.DistKeyShare
 	var err error
@@ -1020,6 +1020,10 @@ func c12Job(r *mon.R, j c12Spec, idx int) {
 		cx := &c12Ctx{e: e, crafted: map[int]*dss.PartialSig{}}
 		name := fmt.Sprintf("msg%d", mi)
 		if cx.main, err = e.buildSess(name, long, rnd, msg, true); err != nil {
+			// the DKGs completed without error but their output is not what the reference expects for threshold t (e.g. another
+			// number of commitments): no ledger can be built, so the session is judged end to end only - every participant
+			// signs, participant 0 collects exactly t partials, and a signature that comes out must verify under the DKG's key
+			e.endToEnd(name, long, rnd, msg, err)
 			setupFail("session", err)
 			return
 		}
@@ -1096,4 +1100,62 @@ func c12(r *mon.R) {
 		r.Inconclusive("no signing session could be set up: nothing was observed")
 	}
 	r.Note("injected_classes", len(c12Classes))
+}
+
+// endToEnd judges a session whose keys the reference could not validate (see c12Job): no ledger, only the end-to-end
+// statement "t valid partials collected at a participant give a signature that crypto/ed25519 accepts under the DKG's key".
+func (e *c12Env) endToEnd(name string, long, rnd []dss.DistKeyShare, msg []byte, why error) {
+	r := e.r
+	r.NoteAdd("end_to_end_only_sessions(keys not validated by the reference)", 1)
+	det := map[string]any{"job": e.id, "session": name, "reference_refused_keys_because": why.Error(), "msg": mon.Hex(msg)}
+	var sig []byte
+	var serr error
+	var accepted int
+	var pub []byte
+	if p, bad := mon.Try(func() {
+		var objs []*dss.DSS
+		for i := 0; i < e.n; i++ {
+			d, err := e.newDSS(i, long[i], rnd[i], msg)
+			if err != nil {
+				serr = fmt.Errorf("NewDSS(%d): %w", i, err)
+				return
+			}
+			objs = append(objs, d)
+		}
+		pub = c12Enc(long[0].Commitments()[0])
+		if _, err := objs[0].PartialSig(); err != nil {
+			serr = fmt.Errorf("PartialSig(0): %w", err)
+			return
+		}
+		accepted = 1
+		for i := 1; i < e.n && accepted < e.t; i++ {
+			ps, err := objs[i].PartialSig()
+			if err != nil {
+				serr = fmt.Errorf("PartialSig(%d): %w", i, err)
+				return
+			}
+			if err := objs[0].ProcessPartialSig(ps); err == nil {
+				accepted++
+			}
+		}
+		if accepted >= e.t && objs[0].EnoughPartialSig() {
+			sig, serr = objs[0].Signature()
+		}
+	}); bad {
+		det["panic"] = p
+		e.violation("C12/dss/end-to-end/panic", "panic while signing with keys an all-honest DKG produced: "+p, det)
+		return
+	}
+	r.Eval("end-to-end/t-partials-give-a-valid-signature", e.id+"|"+name, true)
+	det["accepted_partials"] = accepted
+	if sig == nil {
+		det["error"] = fmt.Sprint(serr)
+		r.NoteAdd("end_to_end_only_sessions.no-signature-produced", 1)
+		return
+	}
+	det["signature"] = mon.Hex(sig)
+	det["public_key"] = mon.Hex(pub)
+	if len(sig) != ed25519.SignatureSize || !ed25519.Verify(ed25519.PublicKey(pub), msg, sig) {
+		e.violation("C12/dss/Signature/invalid-signature-from-t-valid-partials/keys-of-other-threshold", "t accepted partials over keys produced by an all-honest DKG give a signature that crypto/ed25519 rejects under the distributed public key", det)
+	}
 }
